@@ -52,6 +52,36 @@ fn main() {
                 }
             }
         }
+        "minimize" => {
+            // bvv minimize <ID> <replay.json>: shrink the case in place (same violation signature)
+            let id = args.get(2).cloned().unwrap_or_default();
+            let path = args.get(3).cloned().unwrap_or_default();
+            let text = std::fs::read_to_string(&path).unwrap_or_default();
+            let Ok(mut doc) = serde_json::from_str::<serde_json::Value>(&text) else {
+                eprintln!("cannot parse {}", path);
+                std::process::exit(2);
+            };
+            let case = doc.get("case").cloned().unwrap_or(doc.clone());
+            let r = with_property!(id.as_str(), p => vprops::minimize::minimize(&p, case));
+            match r {
+                Some((min, Some(sig))) => {
+                    if let Some(o) = doc.as_object_mut() {
+                        o.insert("case".into(), min);
+                        o.insert("minimized".into(), true.into());
+                        o.insert("signature".into(), sig.into());
+                    } else {
+                        doc = serde_json::json!({"property": id, "case": min, "minimized": true, "signature": sig});
+                    }
+                    std::fs::write(&path, serde_json::to_string_pretty(&doc).unwrap()).ok();
+                    std::process::exit(0);
+                }
+                Some((_, None)) => {
+                    eprintln!("case does not fail in this build: nothing to minimise");
+                    std::process::exit(3);
+                }
+                None => std::process::exit(2),
+            }
+        }
         "replay" => {
             let id = args.get(2).cloned().unwrap_or_default();
             let path = args.get(3).cloned().unwrap_or_default();
